@@ -35,122 +35,165 @@ func genStandard(env *Env, prop string, opaque bool, extra func(ex *symex.Exec, 
 		exs []*symex.Exec
 		ngs []symex.NotGenerated
 	}
-	items := make([]item, len(fcs))
-	var wg sync.WaitGroup
-	sem := make(chan struct{}, 8)
-	for i, fc := range fcs {
-		fn := env.Prog.Func(fc.Rel, fc.Name)
-		if inst := fc.Opts["instance"]; inst != "" {
-			fn = env.Prog.Instance(fc.Rel, fc.Name, inst)
-		}
-		if fn == nil {
-			g.OutOfDate = append(g.OutOfDate, fc.Rel+":"+fc.Name)
-			continue
-		}
-		g.addFunc(env, fn)
-		wg.Add(1)
-		go func(i int, fc *contract.Func) {
-			defer wg.Done()
-			sem <- struct{}{}
-			defer func() { <-sem }()
-			cases := []*contract.Case{nil}
-			if len(fc.Cases) > 1 {
-				cases = nil
-				for _, c := range fc.Cases[1:] {
-					cases = append(cases, c)
-				}
+	// Contracts are verified in waves: first the functions tagged with the property, then
+	// every contract those obligations used at a call site (or as an axiom) that is tagged
+	// with another property only: a property's check never rests on a contract it has not
+	// itself checked against the current body.
+	done := map[string]bool{}
+	dep := false
+	for len(fcs) > 0 {
+		items := make([]item, len(fcs))
+		var wg sync.WaitGroup
+		sem := make(chan struct{}, 8)
+		for i, fc := range fcs {
+			done[fc.Rel+":"+fc.Name] = true
+			fn := env.Prog.Func(fc.Rel, fc.Name)
+			if inst := fc.Opts["instance"]; inst != "" {
+				fn = env.Prog.Instance(fc.Rel, fc.Name, inst)
 			}
-			for _, c := range cases {
-				ex := symex.NewExec(env.Prog, env.CS, env.Tables)
-				ex.OpaqueStrings = opaque
-				ex.FuncTables = env.FuncTables
-				ex.RegexpSubexp = env.RegexpSubexp
-				ex.SetPrefix("")
-				handled := fc.Flags["trusted"] || fc.Flags["inline"]
-				if extra != nil {
-					sub := newGen()
-					handled = extra(ex, fc, sub)
-					items[i].ngs = append(items[i].ngs, sub.NotGen...)
+			if fn == nil {
+				g.OutOfDate = append(g.OutOfDate, fc.Rel+":"+fc.Name)
+				continue
+			}
+			g.addFunc(env, fn)
+			wg.Add(1)
+			go func(i int, fc *contract.Func) {
+				defer wg.Done()
+				sem <- struct{}{}
+				defer func() { <-sem }()
+				cases := []*contract.Case{nil}
+				if len(fc.Cases) > 1 {
+					cases = nil
+					for _, c := range fc.Cases[1:] {
+						cases = append(cases, c)
+					}
 				}
-				if !handled {
-					if fc.Flags["sortlaws"] {
-						var excl []string
-						if kf := env.Findings.Match(prop, fc.Name+"/law/trans"); kf != nil {
-							excl = kf.ExcludeKinds
-						}
-						// full obligation first, then the carved-out form
-						if ng := ex.SortLaws(fn, fc, nil, ""); ng != nil {
-							items[i].ngs = append(items[i].ngs, *ng)
-						}
-						if len(excl) > 0 {
-							ex2 := symex.NewExec(env.Prog, env.CS, env.Tables)
-							ex2.SetPrefix("")
-							if ng := ex2.SortLaws(fn, fc, excl, "[outside-known-finding]"); ng != nil {
+				for _, c := range cases {
+					ex := symex.NewExec(env.Prog, env.CS, env.Tables)
+					ex.OpaqueStrings = opaque
+					if dep {
+						ex.OpaqueStrings = opaqueProps[firstProp(fc)]
+					}
+					ex.FuncTables = env.FuncTables
+					ex.RegexpSubexp = env.RegexpSubexp
+					ex.SetPrefix("")
+					handled := fc.Flags["trusted"] || fc.Flags["inline"]
+					if dep && (fc.Flags["sortlaws"] || fc.Flags["fromlog"] || fc.Flags["maprange"]) {
+						items[i].ngs = append(items[i].ngs, symex.NotGenerated{Func: fc.Name, Why: "contract used here; its obligations need the generator of property " + firstProp(fc) + " and are discharged there"})
+						handled = true
+					}
+					if extra != nil && !dep {
+						sub := newGen()
+						handled = extra(ex, fc, sub)
+						items[i].ngs = append(items[i].ngs, sub.NotGen...)
+					}
+					if !handled {
+						if fc.Flags["sortlaws"] {
+							var excl []string
+							if kf := env.Findings.Match(prop, fc.Name+"/law/trans"); kf != nil {
+								excl = kf.ExcludeKinds
+							}
+							// full obligation first, then the carved-out form
+							if ng := ex.SortLaws(fn, fc, nil, ""); ng != nil {
 								items[i].ngs = append(items[i].ngs, *ng)
 							}
-							items[i].exs = append(items[i].exs, ex2)
-						}
-					} else if fc.Flags["rulesmerge"] {
-						if ng := ex.RulesMerge(fn, fc); ng != nil {
-							items[i].ngs = append(items[i].ngs, *ng)
-						}
-					} else if fc.Flags["mergelaws"] {
-						tn := strings.TrimSuffix(strings.TrimPrefix(fc.Name, "(*"), ").Merge")
-						var den *symex.Denot
-						for _, tl := range env.CS.Tables {
-							if tl.Kind == "denot" && tl.Head == tn {
-								d, err := symex.ParseDenot(tl)
-								if err != nil {
-									items[i].ngs = append(items[i].ngs, symex.NotGenerated{Func: fc.Name, Why: err.Error()})
-								} else {
-									den = &d
+							if len(excl) > 0 {
+								ex2 := symex.NewExec(env.Prog, env.CS, env.Tables)
+								ex2.SetPrefix("")
+								if ng := ex2.SortLaws(fn, fc, excl, "[outside-known-finding]"); ng != nil {
+									items[i].ngs = append(items[i].ngs, *ng)
 								}
+								items[i].exs = append(items[i].exs, ex2)
 							}
-						}
-						if den == nil {
-							items[i].ngs = append(items[i].ngs, symex.NotGenerated{Func: fc.Name, Why: "no denot line for " + tn})
-						} else if ng := ex.MergeLaws(fn, fc, *den); ng != nil {
-							items[i].ngs = append(items[i].ngs, *ng)
-						}
-					} else {
-						if ng := ex.VerifyFunc(fn, fc, c); ng != nil {
-							items[i].ngs = append(items[i].ngs, *ng)
-						}
-						if fc.Flags["pure"] {
-							if ng := ex.VerifyLemmas(fn, fc, c); ng != nil {
+						} else if fc.Flags["rulesmerge"] {
+							if ng := ex.RulesMerge(fn, fc); ng != nil {
 								items[i].ngs = append(items[i].ngs, *ng)
 							}
-						}
-						if fc.Flags["orderlaws"] {
-							carve := map[string]contract.Clause{}
-							for _, law := range []string{"refl", "antisym", "trans", "ident"} {
-								if kf := env.Findings.Match(prop, fc.Name+"/law/"+law); kf != nil && kf.CarveOut != "" {
-									cl, err := contract.ParseClause(kf.CarveOut, "known_findings.json")
-									if err == nil {
-										carve[law] = cl
+						} else if fc.Flags["mergelaws"] {
+							tn := strings.TrimSuffix(strings.TrimPrefix(fc.Name, "(*"), ").Merge")
+							var den *symex.Denot
+							for _, tl := range env.CS.Tables {
+								if tl.Kind == "denot" && tl.Head == tn {
+									d, err := symex.ParseDenot(tl)
+									if err != nil {
+										items[i].ngs = append(items[i].ngs, symex.NotGenerated{Func: fc.Name, Why: err.Error()})
 									} else {
-										items[i].ngs = append(items[i].ngs, symex.NotGenerated{Func: fc.Name, Why: "carve-out of known finding does not parse: " + err.Error()})
+										den = &d
 									}
 								}
 							}
-							if ng := ex.OrderLaws(fn, fc, carve); ng != nil {
+							if den == nil {
+								items[i].ngs = append(items[i].ngs, symex.NotGenerated{Func: fc.Name, Why: "no denot line for " + tn})
+							} else if ng := ex.MergeLaws(fn, fc, *den); ng != nil {
 								items[i].ngs = append(items[i].ngs, *ng)
+							}
+						} else {
+							if ng := ex.VerifyFunc(fn, fc, c); ng != nil {
+								items[i].ngs = append(items[i].ngs, *ng)
+							}
+							if fc.Flags["pure"] {
+								if ng := ex.VerifyLemmas(fn, fc, c); ng != nil {
+									items[i].ngs = append(items[i].ngs, *ng)
+								}
+							}
+							if fc.Flags["orderlaws"] && !dep {
+								carve := map[string]contract.Clause{}
+								for _, law := range []string{"refl", "antisym", "trans", "ident"} {
+									if kf := env.Findings.Match(prop, fc.Name+"/law/"+law); kf != nil && kf.CarveOut != "" {
+										cl, err := contract.ParseClause(kf.CarveOut, "known_findings.json")
+										if err == nil {
+											carve[law] = cl
+										} else {
+											items[i].ngs = append(items[i].ngs, symex.NotGenerated{Func: fc.Name, Why: "carve-out of known finding does not parse: " + err.Error()})
+										}
+									}
+								}
+								if ng := ex.OrderLaws(fn, fc, carve); ng != nil {
+									items[i].ngs = append(items[i].ngs, *ng)
+								}
 							}
 						}
 					}
+					items[i].exs = append(items[i].exs, ex)
 				}
-				items[i].exs = append(items[i].exs, ex)
-			}
-		}(i, fc)
-	}
-	wg.Wait()
-	for _, it := range items {
-		for _, ex := range it.exs {
-			g.absorb(ex)
+			}(i, fc)
 		}
-		g.NotGen = append(g.NotGen, it.ngs...)
+		wg.Wait()
+		for _, it := range items {
+			for _, ex := range it.exs {
+				g.absorb(ex)
+			}
+			g.NotGen = append(g.NotGen, it.ngs...)
+		}
+		var next []*contract.Func
+		for k := range g.Used {
+			if done[k] {
+				continue
+			}
+			done[k] = true
+			if fc := env.CS.Funcs[k]; fc != nil && !fc.Flags["trusted"] && !fc.Flags["inline"] {
+				next = append(next, fc)
+			}
+		}
+		sort.Slice(next, func(i, j int) bool { return next[i].Rel+next[i].Name < next[j].Rel+next[j].Name })
+		if len(next) > 0 {
+			var names []string
+			for _, fc := range next {
+				names = append(names, fc.Name)
+			}
+			g.Notes = append(g.Notes, "contracts of other properties used by these obligations and verified here as well: "+strings.Join(names, ", "))
+		}
+		fcs = next
+		dep = true
 	}
 	return g
+}
+
+// properties whose obligations compare strings by equality only
+var opaqueProps = map[string]bool{"C10": true}
+
+func firstProp(fc *contract.Func) string {
+	return strings.TrimSpace(strings.Split(fc.Opts["prop"], ",")[0])
 }
 
 func init() {
@@ -165,6 +208,25 @@ func init() {
 				g.Static = append(g.Static, frame.SortByComparator(env.Prog, fn, "(Rules).Sort$1"))
 			} else {
 				g.OutOfDate = append(g.OutOfDate, "pkg/aa:(Rules).Sort")
+			}
+			if fn := env.Prog.Func("pkg/aa", "(Rules).Sort"); fn != nil && env.Tier == "thorough" {
+				ex := symex.NewExec(env.Prog, env.CS, env.Tables)
+				noident, skip := map[string]bool{}, map[string]bool{}
+				for _, fc := range funcsWithProp(env, "C11") {
+					if !fc.Flags["orderlaws"] {
+						continue
+					}
+					tn := strings.TrimSuffix(strings.TrimPrefix(fc.Name, "(*"), ").Compare")
+					if fc.Flags["noident"] {
+						noident[tn] = true
+					}
+					for _, law := range []string{"trans", "ident"} {
+						if env.Findings.Match("C11", fc.Name+"/law/"+law) != nil {
+							skip[tn+"/"+law] = true
+						}
+					}
+				}
+				g.Static = append(g.Static, dynamicC11(env, ex.RuleTypes(fn.Pkg, "Rule"), noident, skip))
 			}
 			g.Unverified = []string{
 				"behaviour of slices.SortFunc itself (trusted: permutation; sorted w.r.t. a comparator that satisfies the four laws)",
@@ -186,6 +248,17 @@ func init() {
 		Packages: []string{"pkg/aa"},
 		Generate: func(env *Env) *Gen {
 			g := genStandard(env, "C10", true, nil)
+			if env.Tier == "thorough" {
+				denots := map[string]symex.Denot{}
+				for _, tl := range env.CS.Tables {
+					if tl.Kind == "denot" {
+						if d, err := symex.ParseDenot(tl); err == nil {
+							denots[tl.Head] = d
+						}
+					}
+				}
+				g.Static = append(g.Static, dynamicC10(env, denots))
+			}
 			g.Unverified = []string{
 				"the property's second oracle (compiling both lists with the reference parser)",
 			}
